@@ -3,6 +3,7 @@
 import DdsModel.TrapLoops
 import DdsModel.Proofs.TrapUnc
 import DdsModel.Proofs.StreamPaths
+import DdsModel.Proofs.Addr
 namespace Dds.TrapLoops
 open Dds Dds.Trap
 
@@ -421,5 +422,423 @@ theorem whileLines_spec {σ : Type} (body : σ → Sl → Option (σ × List Ev)
         subst hd0
         rw [LB.nextLineT_done inv]
         exact ⟨[], rfl, by rw [refillsFrom_zero]; rfl, Wr.nil R⟩
+
+/-! ### pixel functions, `convert_channels_for`, `process_pixels` -/
+
+theorem PxFn.runT_spec {f : PxFn} {encSize decSize n : Nat} (hf : f.Fits encSize decSize) (hn : n < 2 ^ 40)
+    {enc dec : Sl} (he : enc.len = n * encSize) (hd : dec.len = n * decSize) :
+    ∃ evs, f.runT enc dec = some evs ∧ Quiet (WrOK dec) evs := by
+  cases f with
+  | helper a b =>
+    obtain ⟨ha, hb, c, _, h1, h2⟩ := hf
+    have e1 : enc.len = (n * c) * a := by rw [he, h1, Nat.mul_assoc]
+    have e2 : dec.len = (n * c) * b := by rw [hd, h2, Nat.mul_assoc]
+    refine ⟨[Ev.wr ⟨dec.buf, dec.off, n * c * b⟩], ?_, Quiet.one (Or.inr ⟨rfl, Nat.le_refl _, by simp only; omega⟩)⟩
+    simp only [PxFn.runT]
+    rw [e1, e2, TrapUnc.processPixelsT_eq a b (n * c) ha hb, bind_some', pure_some']
+  | copy =>
+    have hf : encSize = decSize := hf
+    refine ⟨[Ev.wr dec], ?_, Quiet.one (WrOK.self dec)⟩
+    simp only [PxFn.runT]
+    rw [dbgP_of (by rw [he, hd, hf]), bind_some', dbgP_of (by rw [he, hd, hf]), bind_some', pure_some']
+  | unroll a b =>
+    obtain ⟨ha, hb, c, hc, h1, h2⟩ := hf
+    subst ha
+    have e1 : enc.len = (n * c) * 2 := by rw [he, h1, Nat.mul_assoc]
+    have e2 : dec.len = (n * c) * b := by rw [hd, h2, Nat.mul_assoc]
+    have hlt : n * c < 2 ^ 60 := by
+      have : n * c ≤ n * 16 := Nat.mul_le_mul_left _ hc
+      simp only [Nat.reducePow] at hn ⊢; omega
+    refine ⟨[Ev.wr dec], ?_, Quiet.one (WrOK.self dec)⟩
+    simp only [PxFn.runT]
+    rw [e1, e2, TrapUnc.processPixelsUnrollT_eq b (n * c) hb hlt, bind_some', pure_some']
+
+theorem convertChannelsForT_spec {native : Color} {target : Unc.Channels} (hp : native.psz = 1 ∨ native.psz = 2 ∨ native.psz = 4)
+    {n : Nat} {src dst : Sl} (hs : src.len = n * native.bpp) (hd : dst.len = n * (Color.mk target native.psz).bpp) :
+    convertChannelsForT native target src dst = some [Ev.wr dst] := by
+  unfold convertChannelsForT
+  have e1 : src.len = n * (native.psz * TrapUnc.chanCount native.ch) := by rw [hs, Color.bpp, Nat.mul_comm native.psz]
+  have e2 : dst.len = n * (native.psz * TrapUnc.chanCount target) := by rw [hd, Color.bpp, Nat.mul_comm native.psz]
+  rw [e1, e2, TrapUnc.convertChannelsT_eq native.ch target native.psz n hp, bind_some', pure_some']
+
+theorem tmpBuffer_len : tmpBuffer.len = BUFFER_BYTES := by decide
+
+theorem stepStart_facts {n p cs : Nat} (hp : 0 < p) (h : cs ∈ Addr.stepStarts n p) :
+    cs < n ∧ cs ≤ min (cs + p) n ∧ min (cs + p) n - cs ≤ p ∧ min (cs + p) n ≤ n := by
+  obtain ⟨k, hk, rfl⟩ := (Addr.mem_stepStarts hp).1 h
+  rw [Nat.min_def]; split <;> omega
+
+/-- **`ChannelConversionBuffer::process_pixels`** on a row of `n` pixels -/
+theorem convPixelsT_spec {native : Color} {target : Unc.Channels} {f : PxFn} {encSize n : Nat}
+    (hp : native.psz = 1 ∨ native.psz = 2 ∨ native.psz = 4) (hf : f.Fits encSize native.bpp) (hE : encSize < 256)
+    (hn0 : 0 < n) (hn : n < U32B) {enc out : Sl} (he : enc.len = n * encSize)
+    (ho : out.len = n * (Color.mk target native.psz).bpp) :
+    ∃ evs, convPixelsT native target f enc out = some evs ∧ Quiet (WrOK out) evs := by
+  unfold convPixelsT
+  by_cases hc : native.ch = target
+  · rw [if_pos hc]
+    have : (Color.mk target native.psz) = native := by cases native; simp only at hc; subst hc; rfl
+    rw [this] at ho
+    exact PxFn.runT_spec hf (by unfold U32B at hn; simp only [Nat.reducePow]; omega) he ho
+  · rw [if_neg hc]
+    generalize hO : (Color.mk target native.psz).bpp = O at ho
+    have hOb : 1 ≤ O ∧ O ≤ 16 := hO ▸ Color.bpp_bounds ⟨target, native.psz⟩ hp
+    have hNb := Color.bpp_bounds native hp
+    generalize hN : native.bpp = N at hNb hf
+    have hP : 0 < BUFFER_BYTES / N := by
+      have : N ≤ BUFFER_BYTES := by have : (16 : Nat) ≤ BUFFER_BYTES := by decide
+                                    omega
+      exact Nat.div_pos this (by omega)
+    have hPN : BUFFER_BYTES / N * N ≤ BUFFER_BYTES := Nat.div_mul_le_self _ _
+    have hPle : BUFFER_BYTES / N ≤ BUFFER_BYTES := Nat.div_le_self _ _
+    have hq1 : out.len / O = n := by rw [ho]; exact Nat.mul_div_cancel _ (by omega)
+    have hq2 : enc.len / n = encSize := by rw [he]; exact Nat.mul_div_cancel_left _ hn0
+    have hm : O % TrapUnc.chanCount target = 0 := by rw [← hO]; exact Nat.mul_mod_right _ _
+    have hcnt := chanCount_le target
+    rw [Color.bppT_eq ⟨target, native.psz⟩ hp, bind_some', hO, div_of_ne (by omega), bind_some', hq1, div_of_ne (by omega), bind_some', hq2,
+      modT_of_ne (by omega), bind_some', dbgP_of hm, bind_some', Color.bppT_eq native hp, bind_some', hN,
+      div_of_ne (by omega), bind_some', dbgP_of (by omega), bind_some']
+    apply forT_quiet
+    intro cs hcs
+    obtain ⟨h1, h2, h3, h4⟩ := stepStart_facts hP hcs
+    generalize hce : min (cs + BUFFER_BYTES / N) n = ce at h2 h3 h4
+    have hUS : (2 : Nat) ^ 40 < USIZE := by decide
+    unfold U32B at hn
+    -- products
+    have p1 : cs * encSize ≤ ce * encSize := Nat.mul_le_mul_right _ h2
+    have p2 : ce * encSize ≤ n * encSize := Nat.mul_le_mul_right _ h4
+    have p3 : n * encSize ≤ n * 256 := Nat.mul_le_mul_left _ (by omega)
+    have p4 : cs * O ≤ ce * O := Nat.mul_le_mul_right _ h2
+    have p5 : ce * O ≤ n * O := Nat.mul_le_mul_right _ h4
+    have p6 : n * O ≤ n * 16 := Nat.mul_le_mul_left _ hOb.2
+    have p7 : (ce - cs) * N ≤ BUFFER_BYTES / N * N := Nat.mul_le_mul_right _ h3
+    have s1 : ce * encSize - cs * encSize = (ce - cs) * encSize := (Nat.sub_mul _ _ _).symm
+    have s2 : ce * O - cs * O = (ce - cs) * O := (Nat.sub_mul _ _ _).symm
+    have hB : BUFFER_BYTES < 2 ^ 20 := by decide
+    simp only [Nat.reducePow] at hUS hB
+    rw [ckU_of_lt (by omega), bind_some']
+    simp only []
+    rw [hce, subU_of_le h2, bind_some', ckU_of_lt (by omega), bind_some', ckU_of_lt (by omega), bind_some',
+      Sl.range_of ⟨p1, by omega⟩, bind_some', ckU_of_lt (by omega), bind_some', ckU_of_lt (by omega), bind_some',
+      Sl.range_of ⟨p4, by omega⟩, bind_some', ckU_of_lt (by omega), bind_some',
+      Sl.upto_of (by rw [tmpBuffer_len]; omega), bind_some']
+    obtain ⟨w1, hw1, q1⟩ := PxFn.runT_spec (f := f) (encSize := encSize) (decSize := N) (n := ce - cs) hf
+      (by simp only [Nat.reducePow]; omega)
+      (enc := ⟨enc.buf, enc.off + cs * encSize, ce * encSize - cs * encSize⟩)
+      (dec := ⟨tmpBuffer.buf, tmpBuffer.off, (ce - cs) * N⟩) s1 rfl
+    rw [hw1, bind_some']
+    rw [convertChannelsForT_spec hp (n := ce - cs) (by simp only [hN]) (by simp only [hO]; exact s2), bind_some',
+      pure_some']
+    refine ⟨_, rfl, Quiet.append (q1.mono fun s hs => hs.tmp rfl out) (Quiet.one ?_)⟩
+    exact Or.inr ⟨rfl, by simp only; omega, by simp only; omega⟩
+
+/-- a loop of independent iterations with a known reader trace per iteration -/
+theorem forT_spec {α} (body : α → Option (List Ev)) (g : α → List Stream.Op) (R : Sl → Prop) :
+    ∀ l : List α, (∀ x ∈ l, ∃ e, body x = some e ∧ ios e = g x ∧ Wr R e) →
+      ∃ evs, forT body l = some evs ∧ ios evs = l.flatMap g ∧ Wr R evs
+  | [], _ => ⟨[], rfl, rfl, Wr.nil R⟩
+  | x :: l, h => by
+    obtain ⟨e, he, ie, we⟩ := h x (List.mem_cons_self ..)
+    obtain ⟨r, hr, ir, wr⟩ := forT_spec body g R l (fun y hy => h y (List.mem_cons_of_mem _ hy))
+    exact ⟨e ++ r, forT_cons body x l he hr, by rw [ios_append, ie, ir, List.flatMap_cons], we.append wr⟩
+
+/-! ### the pixel loops -/
+
+/-- how a decoder of `uncompressed.rs` instantiates the two pixel loops: `debug_assert`s of the entry, `PixelSize` -/
+structure PixelCfg (img : Img) (native : Color) (encSize decSize : Nat) (f : PxFn) : Prop where
+  prec : img.color.psz = native.psz
+  dec : native.bpp = decSize
+  enc_pos : 0 < encSize
+  enc_lt : encSize < 256
+  fits : f.Fits encSize decSize
+
+theorem PixelCfg.native_psz {img : Img} {native : Color} {encSize decSize : Nat} {f : PxFn}
+    (c : PixelCfg img native encSize decSize f) (ok : img.Ok) : native.psz = 1 ∨ native.psz = 2 ∨ native.psz = 4 :=
+  c.prec ▸ ok.psz
+
+/-- one row through `process_pixels`: the writes stay inside the row -/
+theorem convPixels_row {img : Img} {native : Color} {encSize decSize : Nat} {f : PxFn} (ok : img.Ok)
+    (c : PixelCfg img native encSize decSize f) {line : Sl} (hl : line.len = img.w * encSize) {y : Nat} (hy : y < img.h) :
+    ∃ e, convPixelsT native img.color.ch f line ⟨.out, y * img.pitch, img.w * img.color.bpp⟩ = some e ∧
+      Quiet (InRows 0 img.pitch img.h (img.w * img.color.bpp)) e := by
+  have hcol : (Color.mk img.color.ch native.psz) = img.color := by
+    rw [← c.prec]
+  obtain ⟨e, he, q⟩ := convPixelsT_spec (native := native) (target := img.color.ch) (f := f) (encSize := encSize)
+    (n := img.w) (c.native_psz ok) (c.dec ▸ c.fits) c.enc_lt ok.w_pos ok.w_lt (enc := line)
+    (out := ⟨.out, y * img.pitch, img.w * img.color.bpp⟩) hl (by rw [hcol])
+  exact ⟨e, he, q.mono fun s hs => InRows.of_WrOK hs hy (by simp) (Nat.le_refl _)⟩
+
+theorem pixelRows_spec {img : Img} {native : Color} {encSize decSize : Nat} {f : PxFn} (ok : img.Ok)
+    (c : PixelCfg img native encSize decSize f) (cap : Nat) :
+    ∀ (m : Nat) (lb : LB) (avail onDisk k : Nat), avail + onDisk = m → k + m = img.h → LBInv lb cap avail onDisk →
+      lb.bpl = img.w * encSize →
+      ∃ evs, pixelRowsT img native encSize f (img.w * img.color.bpp) (List.range' k m) lb = some evs ∧
+        ios evs = refillsFrom cap (img.w * encSize) onDisk ∧
+        Wr (InRows 0 img.pitch img.h (img.w * img.color.bpp)) evs := by
+  intro m
+  induction m with
+  | zero =>
+    intro lb avail onDisk k h1 _ _ _
+    have : onDisk = 0 := by omega
+    subst this
+    exact ⟨[], rfl, by rw [refillsFrom_zero]; rfl, Wr.nil _⟩
+  | succ m ih =>
+    intro lb avail onDisk k h1 h2 inv hbpl
+    rw [List.range'_succ]
+    unfold pixelRowsT
+    rw [ok.rowsMutItemT (by omega : k < img.h), bind_some']
+    have hmod : (img.w * encSize) % encSize = 0 := Nat.mul_mod_left _ _
+    by_cases ha : 0 < avail
+    · obtain ⟨b', line, n1, n2, n3, n4, n5⟩ := LB.nextLineT_avail inv ha
+      obtain ⟨e2, he2, q2⟩ := convPixels_row ok c (n3.trans hbpl) (by omega : k < img.h)
+      obtain ⟨e3, he3, i3, w3⟩ := ih b' (avail - 1) onDisk (k + 1) (by omega) (by omega) n5 (n4.trans hbpl)
+      rw [n1]
+      simp only []
+      rw [n3.trans hbpl, modT_of_ne (by have := c.enc_pos; omega), bind_some', dbgP_of hmod, bind_some', he2, bind_some',
+        he3, bind_some', pure_some']
+      exact ⟨_, rfl, by rw [ios_append, ios_append, q2.1, i3]; rfl, ((Wr.nil _).append q2.2).append w3⟩
+    · have ha0 : avail = 0 := by omega
+      subst ha0
+      have hd : 0 < onDisk := by omega
+      obtain ⟨b', line, n1, n2, n3, n4, n5⟩ := LB.nextLineT_refill inv hd
+      have hmin : 0 < min cap onDisk := by rw [Nat.lt_min]; exact ⟨inv.cap_pos, hd⟩
+      have hmle : min cap onDisk ≤ onDisk := Nat.min_le_right _ _
+      obtain ⟨e2, he2, q2⟩ := convPixels_row ok c (n3.trans hbpl) (by omega : k < img.h)
+      obtain ⟨e3, he3, i3, w3⟩ := ih b' (min cap onDisk - 1) (onDisk - min cap onDisk) (k + 1) (by omega) (by omega) n5
+        (n4.trans hbpl)
+      rw [n1]
+      simp only []
+      rw [n3.trans hbpl, modT_of_ne (by have := c.enc_pos; omega), bind_some', dbgP_of hmod, bind_some', he2, bind_some',
+        he3, bind_some', pure_some']
+      refine ⟨_, rfl, ?_, ((Wr.io _ _).append q2.2).append w3⟩
+      rw [ios_append, ios_append, q2.1, i3, refillsFrom_step inv.cap_pos hd, hbpl]; rfl
+
+/-- **`for_each_pixel_untyped`**: no trap; trace = C06's `pixelFull`; every write inside a row of the view -/
+theorem pixelFullT_spec {img : Img} {native : Color} {encSize decSize : Nat} {f : PxFn} (ok : img.Ok)
+    (c : PixelCfg img native encSize decSize f) :
+    ∃ evs, pixelFullT img native encSize decSize f = some evs ∧ ios evs = Stream.pixelFull encSize img.w img.h ∧
+      Wr (InRows 0 img.pitch img.h (img.w * img.color.bpp)) evs := by
+  have hbl : img.w * encSize < USIZE := by
+    have : img.w * encSize ≤ img.w * 256 := Nat.mul_le_mul_left _ (by have := c.enc_lt; omega)
+    have := ok.w_lt; unfold U32B at this; unfold USIZE; omega
+  have hbp : 0 < img.w * encSize := Nat.mul_pos ok.w_pos c.enc_pos
+  obtain ⟨lb, hnew, hbpl, inv⟩ := LB.newT_spec hbp hbl ok.h_pos
+  obtain ⟨e1, he1, i1, w1⟩ := pixelRows_spec ok c (Stream.linesInBuffer (img.w * encSize) img.h) img.h lb 0 img.h 0
+    (by omega) (by omega) inv hbpl
+  unfold pixelFullT
+  rw [dbgP_of c.prec, bind_some', Color.bppT_eq _ (c.native_psz ok), bind_some', dbgP_of c.dec, bind_some',
+    ckU_of_lt hbl, bind_some', hnew, bind_some']
+  simp only []
+  rw [ok.bytesPerRowT, bind_some', dbgP_of (by have := ok.pitch_pos; omega), bind_some', ok.rowsMutCount,
+    List.range_eq_range', he1, bind_some', pure_some']
+  refine ⟨_, rfl, ?_, (Wr.io _ _).append w1⟩
+  rw [ios_append, i1, refillsFrom_stream hbp]
+  unfold Stream.pixelFull
+  rw [Stream.lineBufNew_eq hbp ok.h_pos]; rfl
+
+/-- reader trace of iteration `y` of the rect row loop -/
+def rectRowOps (gap rd y : Nat) : List Stream.Op := (if y > 0 then [.skip gap] else []) ++ [.read rd]
+
+theorem rectRowsRest_flatMap (gap rd : Nat) : ∀ k s, 0 < s →
+    (List.range' s k).flatMap (rectRowOps gap rd) = Stream.rectRowsRest gap rd k
+  | 0, _, _ => rfl
+  | k + 1, s, hs => by
+    rw [List.range'_succ, List.flatMap_cons, rectRowsRest_flatMap gap rd k (s + 1) (by omega)]
+    simp [rectRowOps, hs, Stream.rectRowsRest]
+
+theorem rectRows_flatMap (gap rd : Nat) : ∀ k, (List.range k).flatMap (rectRowOps gap rd) = Stream.rectRows gap rd k
+  | 0 => rfl
+  | k + 1 => by
+    rw [List.range_eq_range', List.range'_succ, List.flatMap_cons, rectRowsRest_flatMap gap rd k 1 (by omega)]
+    simp [rectRowOps, Stream.rectRows]
+
+/-- **`for_each_pixel_rect_untyped`**: surface `W × H`, the image is the rect at `(ox, oy)` inside it -/
+theorem pixelRectT_spec {img : Img} {native : Color} {encSize decSize : Nat} {f : PxFn} (ok : img.Ok)
+    (c : PixelCfg img native encSize decSize f) {W H ox oy : Nat} (hx : ox + img.w ≤ W) (hy : oy + img.h ≤ H)
+    (hsurf : W * H * encSize ≤ I64MAX) :
+    ∃ evs, pixelRectT img W H ox oy native encSize decSize f = some evs ∧
+      ios evs = Stream.pixelRect encSize W H ox oy img.w img.h ∧
+      Wr (InRows 0 img.pitch img.h (img.w * img.color.bpp)) evs := by
+  have hep := c.enc_pos
+  have hwp := ok.w_pos
+  have hhp := ok.h_pos
+  have hUS : 2 * I64MAX < USIZE := by decide
+  -- T = bytes per surface row
+  have hT : W * encSize * H ≤ I64MAX := by rw [Nat.mul_right_comm]; exact hsurf
+  have hpx : W * H ≤ W * H * encSize := Nat.le_mul_of_pos_right _ hep
+  have hT1 : W * encSize * (oy + 1) ≤ W * encSize * H := Nat.mul_le_mul_left _ (by omega)
+  have hT2 : (H - oy - img.h + 1) * (W * encSize) ≤ H * (W * encSize) := Nat.mul_le_mul_right _ (by omega)
+  rw [Nat.mul_add, Nat.mul_one] at hT1
+  rw [Nat.add_mul, Nat.one_mul, Nat.mul_comm H] at hT2
+  have hb : ox * encSize ≤ W * encSize := Nat.mul_le_mul_right _ (by omega)
+  have ha : (W - ox - img.w) * encSize ≤ W * encSize := Nat.mul_le_mul_right _ (by omega)
+  have hr : img.w * encSize ≤ W * encSize := Nat.mul_le_mul_right _ (by omega)
+  have hTH : W * encSize * 1 ≤ W * encSize * H := Nat.mul_le_mul_left _ (by omega)
+  rw [Nat.mul_one] at hTH
+  -- the row loop
+  obtain ⟨e1, he1, i1, w1⟩ := forT_spec
+    (pixelRectRowT img native encSize f (ox * encSize) ((W - ox - img.w) * encSize) ⟨.row, 0, img.w * encSize⟩)
+    (rectRowOps (ox * encSize + (W - ox - img.w) * encSize) (img.w * encSize))
+    (InRows 0 img.pitch img.h (img.w * img.color.bpp)) (List.range img.h) (by
+      intro y hy'
+      have hy' : y < img.h := List.mem_range.mp hy'
+      obtain ⟨e2, he2, q2⟩ := convPixels_row ok c (line := ⟨.row, 0, img.w * encSize⟩) rfl hy'
+      have hb' := ok.bpp
+      unfold pixelRectRowT
+      have q1 : img.w * encSize / encSize = img.w := Nat.mul_div_cancel _ hep
+      have q2' : img.w * img.color.bpp / img.color.bpp = img.w := Nat.mul_div_cancel _ (by omega)
+      by_cases h0 : y > 0
+      · rw [if_pos h0, ckU_of_lt (by omega)]
+        simp only [bind_some', pure_some']
+        rw [ok.getRowT hy', bind_some',
+          Color.bppT_eq _ ok.psz, bind_some', div_of_ne (by omega), bind_some', div_of_ne (by omega), bind_some',
+          dbgP_of (by simp only [q1, q2']), bind_some', he2, bind_some']
+        refine ⟨_, rfl, ?_, ((Wr.io _ _).append (Wr.io _ _)).append q2.2⟩
+        rw [ios_append, ios_append, q2.1]; simp [rectRowOps, h0, ios]
+      · rw [if_neg h0]
+        simp only [bind_some', pure_some']
+        rw [ok.getRowT hy', bind_some',
+          Color.bppT_eq _ ok.psz, bind_some', div_of_ne (by omega), bind_some', div_of_ne (by omega), bind_some',
+          dbgP_of (by simp only [q1, q2']), bind_some', he2, bind_some']
+        refine ⟨_, rfl, ?_, ((Wr.nil _).append (Wr.io _ _)).append q2.2⟩
+        rw [ios_append, ios_append, q2.1]; simp [rectRowOps, h0, ios])
+  unfold pixelRectT
+  rw [dbgP_of c.prec, bind_some', Color.bppT_eq _ (c.native_psz ok), bind_some', dbgP_of c.dec, bind_some',
+    ckU_of_lt (by omega), bind_some', dbgP_of ⟨by omega, hsurf⟩, bind_some', ckU_of_lt (by omega), bind_some',
+    ckU_of_lt (by omega), bind_some', subU_of_le (by omega), bind_some', subU_of_le (by omega), bind_some',
+    ckU_of_lt (by omega), bind_some', ckU_of_lt (by omega), bind_some']
+  simp only []
+  rw [ckU_of_lt (by omega), bind_some', ckU_of_lt (by omega), bind_some', he1, bind_some', subU_of_le (by omega),
+    bind_some', subU_of_le (by omega), bind_some', ckU_of_lt (by omega), bind_some', ckU_of_lt (by omega), bind_some',
+    pure_some']
+  refine ⟨_, rfl, ?_, (((Wr.io _ _).append (Wr.io _ _)).append w1).append (Wr.io _ _)⟩
+  · simp only [ios_append, i1, rectRows_flatMap, ios, Stream.pixelRect, if_pos hsurf, List.nil_append,
+      List.cons_append]
+
+/-! ### `read_exact_image`, `for_each_slice`, the COPY decoders -/
+
+theorem Img.Ok.contig {i : Img} (ok : i.Ok) (hc : i.pitch * i.h = i.len) :
+    i.pitch = i.w * i.color.bpp ∧ i.len = i.w * i.color.bpp * i.h := by
+  have e : i.pitch * i.h = i.pitch * (i.h - 1) + i.pitch := by
+    have : i.h = (i.h - 1) + 1 := by have := ok.h_pos; omega
+    conv => lhs; rw [this, Nat.mul_add, Nat.mul_one]
+  have := ok.len_eq
+  have hp : i.pitch = i.w * i.color.bpp := by omega
+  exact ⟨hp, by rw [← hc, hp]⟩
+
+/-- where a whole-image decoder writes: inside a row, or — contiguous views only, there is no padding then — all data -/
+def CopyWr (i : Img) (s : Sl) : Prop :=
+  s.buf = .out → (∃ y, y < i.h ∧ y * i.pitch ≤ s.off ∧ s.off + s.len ≤ y * i.pitch + i.w * i.color.bpp) ∨
+    (i.pitch = i.w * i.color.bpp ∧ s.off + s.len ≤ i.len)
+
+theorem flatMap_const {α β} (x : List β) : ∀ l : List α, l.flatMap (fun _ => x) = (List.replicate l.length x).flatten
+  | [] => rfl
+  | _ :: l => by rw [List.flatMap_cons, flatMap_const x l]; rfl
+
+theorem readExactImageT_spec {img : Img} (ok : img.Ok) :
+    ∃ evs, readExactImageT img = some evs ∧
+      (ios evs = Stream.copyFull img.color.bpp img.w img.h ∨
+        ios evs = List.replicate img.h (.read (img.w * img.color.bpp))) ∧
+      Stream.span (ios evs) = img.w * img.h * img.color.bpp ∧ Wr (CopyWr img) evs := by
+  unfold readExactImageT
+  rw [ok.isContiguousT, bind_some']
+  by_cases hc : img.pitch * img.h = img.len
+  · have hb : (img.pitch * img.h == img.len) = true := by simp [hc]
+    obtain ⟨h1, h2⟩ := ok.contig hc
+    rw [hb]
+    simp only [if_true, pure_some']
+    have e : img.len = img.w * img.h * img.color.bpp := by rw [h2, Nat.mul_right_comm]
+    refine ⟨_, rfl, Or.inl (by simp [ios, Stream.copyFull, e]), by simp [ios, Stream.span, e], ?_⟩
+    exact (Wr.io _ _).append (Wr.one fun _ => Or.inr ⟨h1, by simp [Img.data]⟩)
+  · have hb : (img.pitch * img.h == img.len) = false := by simp [hc]
+    rw [hb]
+    simp only [Bool.false_eq_true, if_false]
+    rw [ok.bytesPerRowT, bind_some', dbgP_of (by have := ok.pitch_pos; omega), bind_some', ok.rowsMutCount]
+    obtain ⟨evs, he, hi, hw⟩ := forT_spec
+      (fun k => do let row ← img.rowsMutItemT (img.w * img.color.bpp) k; pure [Ev.io (.read row.len), Ev.wr row])
+      (fun _ => [.read (img.w * img.color.bpp)]) (CopyWr img) (List.range img.h) (by
+        intro k hk
+        have hk : k < img.h := List.mem_range.mp hk
+        show ∃ e, (do let row ← img.rowsMutItemT (img.w * img.color.bpp) k; pure [Ev.io (.read row.len), Ev.wr row]) = some e ∧ _
+        rw [ok.rowsMutItemT hk, bind_some', pure_some']
+        refine ⟨_, rfl, rfl, (Wr.io _ _).append (Wr.one fun _ => Or.inl ⟨k, hk, ?_, ?_⟩)⟩ <;> simp)
+    refine ⟨evs, he, Or.inr ?_, ?_, hw⟩
+    · rw [hi, flatMap_const, List.length_range]; simp
+    · rw [hi, flatMap_const, List.length_range]
+      simp only [List.flatten_replicate_singleton, Stream.span_replicate_read]
+      rw [Nat.mul_comm img.w img.h, Nat.mul_assoc]
+
+theorem SliceFn.runT_spec {g : SliceFn} {c : Color} (hg : g.Fits c) {n : Nat} {s : Sl} (hs : s.len = n * c.bpp) :
+    ∃ e, g.runT s = some e ∧ Quiet (WrOK s) e := by
+  cases g with
+  | nothing => exact ⟨[], rfl, Quiet.nil _⟩
+  | le16 =>
+    have hg : c.psz = 2 := hg
+    have : s.len % 2 = 0 := by rw [hs, Color.bpp, hg, ← Nat.mul_assoc]; exact Nat.mul_mod_left _ _
+    simp only [SliceFn.runT]
+    rw [dbgP_of this, bind_some', pure_some']
+    exact ⟨_, rfl, Quiet.nil _⟩
+  | le32 =>
+    have hg : c.psz = 4 := hg
+    have : s.len % 4 = 0 := by rw [hs, Color.bpp, hg, ← Nat.mul_assoc]; exact Nat.mul_mod_left _ _
+    simp only [SliceFn.runT]
+    rw [dbgP_of this, bind_some', pure_some']
+    exact ⟨_, rfl, Quiet.nil _⟩
+  | s8 => exact ⟨[Ev.wr s], rfl, Quiet.one (WrOK.self s)⟩
+  | bgraSwap =>
+    have hg : c = ⟨.rgba, 1⟩ := hg
+    have : s.len = 4 * n := by rw [hs, hg]; simp [Color.bpp, TrapUnc.chanCount, Nat.mul_comm]
+    simp only [SliceFn.runT]
+    rw [this, TrapUnc.bgraSwapT_eq, bind_some', pure_some']
+    exact ⟨_, rfl, Quiet.one (WrOK.self s)⟩
+
+theorem forEachSliceT_spec {img : Img} (ok : img.Ok) {g : SliceFn} (hg : g.Fits img.color) :
+    ∃ evs, forEachSliceT img g = some evs ∧ Quiet (CopyWr img) evs := by
+  unfold forEachSliceT
+  rw [ok.isContiguousT, bind_some']
+  by_cases hc : img.pitch * img.h = img.len
+  · have hb : (img.pitch * img.h == img.len) = true := by simp [hc]
+    obtain ⟨h1, h2⟩ := ok.contig hc
+    rw [hb]
+    simp only [if_true]
+    obtain ⟨e, he, q⟩ := SliceFn.runT_spec hg (n := img.w * img.h) (s := img.data) (by
+      rw [Img.data, h2, Nat.mul_right_comm])
+    refine ⟨e, he, q.mono fun s hs hb => ?_⟩
+    rcases hs with hs | ⟨_, _, c⟩
+    · rw [hs] at hb; cases hb
+    · exact Or.inr ⟨h1, by simpa [Img.data] using c⟩
+  · have hb : (img.pitch * img.h == img.len) = false := by simp [hc]
+    rw [hb]
+    simp only [Bool.false_eq_true, if_false]
+    rw [ok.bytesPerRowT, bind_some', dbgP_of (by have := ok.pitch_pos; omega), bind_some', ok.rowsMutCount]
+    apply forT_quiet
+    intro k hk
+    have hk : k < img.h := List.mem_range.mp hk
+    rw [ok.rowsMutItemT hk, bind_some']
+    obtain ⟨e, he, q⟩ := SliceFn.runT_spec hg (n := img.w) (s := ⟨.out, k * img.pitch, img.w * img.color.bpp⟩) rfl
+    refine ⟨e, he, q.mono fun s hs hb => ?_⟩
+    rcases hs with hs | ⟨_, b, c⟩
+    · rw [hs] at hb; cases hb
+    · exact Or.inl ⟨k, hk, b, c⟩
+
+/-- **the whole-image COPY decoders** (`COPY_U8/U16/U32/S8`, the BGRA swap): `read_exact_image` then `for_each_slice` -/
+theorem copyFullT_spec {img : Img} (ok : img.Ok) {g : SliceFn} (hg : g.Fits img.color) :
+    ∃ evs, copyFullT img g = some evs ∧
+      (ios evs = Stream.copyFull img.color.bpp img.w img.h ∨
+        ios evs = List.replicate img.h (.read (img.w * img.color.bpp))) ∧
+      Stream.span (ios evs) = img.w * img.h * img.color.bpp ∧ Wr (CopyWr img) evs := by
+  obtain ⟨e1, h1, i1, s1, w1⟩ := readExactImageT_spec ok
+  obtain ⟨e2, h2, q2⟩ := forEachSliceT_spec ok hg
+  unfold copyFullT
+  rw [h1, bind_some']
+  by_cases hn : g = .nothing
+  · rw [if_pos hn, pure_some', bind_some']
+    simp only [pure_some']
+    exact ⟨_, rfl, by rwa [List.append_nil], by rwa [List.append_nil], w1.append (Wr.nil _)⟩
+  · rw [if_neg hn, h2, bind_some']
+    simp only [pure_some']
+    refine ⟨_, rfl, ?_, ?_, w1.append q2.2⟩
+    · rw [ios_append, q2.1, List.append_nil]; exact i1
+    · rw [ios_append, q2.1, List.append_nil]; exact s1
 
 end Dds.TrapLoops
